@@ -27,7 +27,7 @@ type Case struct {
 }
 
 func genCase(t *rapid.T) Case {
-	shape := rapid.SampledFrom([]string{"random", "walk", "collinear-runs", "closed-loop", "repeats", "zigzag", "tiny", "damped-zigzag"}).Draw(t, "shape")
+	shape := rapid.SampledFrom([]string{"random", "walk", "collinear-runs", "closed-loop", "repeats", "zigzag", "tiny", "damped-zigzag", "mixed-scale"}).Draw(t, "shape")
 	k := uint(rapid.IntRange(0, 16).Draw(t, "k"))
 	side := int64(1) << k
 	n := rapid.IntRange(0, 200).Draw(t, "n")
@@ -73,6 +73,26 @@ func genCase(t *rapid.T) Case {
 			cur = [2]int64{cur[0] + 1, int64(i%2) * rapid.Int64Range(0, side).Draw(t, "amp")}
 		case "closed-loop":
 			cur = [2]int64{rapid.Int64Range(-side, side).Draw(t, "x"), rapid.Int64Range(-side, side).Draw(t, "y")}
+		case "mixed-scale":
+			// small detail (steps of a few units) interrupted by legs that are 2^40..2^62
+			// long: lengths, sums and differences of very different magnitudes in one line
+			switch rapid.IntRange(0, 7).Draw(t, "leg") {
+			case 0:
+				e := uint(rapid.IntRange(40, 61).Draw(t, "lege"))
+				far := int64(1) << e
+				if rapid.Bool().Draw(t, "legneg") {
+					far = -far
+				}
+				if rapid.Bool().Draw(t, "legaxis") {
+					cur = [2]int64{far, cur[1] % 1024}
+				} else {
+					cur = [2]int64{cur[0] % 1024, far}
+				}
+			case 1:
+				cur = [2]int64{0, 0}
+			default:
+				cur = [2]int64{cur[0]%(1<<20) + rapid.Int64Range(-100, 100).Draw(t, "dx"), cur[1]%(1<<20) + rapid.Int64Range(-100, 100).Draw(t, "dy")}
+			}
 		}
 		pts = append(pts, cur)
 	}
@@ -177,16 +197,16 @@ func simplify(c Case, f []float64) error {
 			return fmt.Errorf("indexes not strictly increasing: %v", idx)
 		}
 	}
-	scale := 0.0
-	for _, p := range c.Pts {
-		scale = math.Max(scale, math.Max(math.Abs(float64(p[0])), math.Abs(float64(p[1]))))
-	}
-	// allowed distance: thr plus the rounding of the library's own distance computation
-	lim := exact.Add(exact.Mul(exact.R(thr), exact.Add(big.NewRat(1, 1), big.NewRat(1, 1<<30))), exact.Mul(exact.R(scale), big.NewRat(1, 1<<40)))
-	lim2 := exact.Mul(lim, lim)
+	mag := func(p [2]int64) float64 { return math.Max(math.Abs(float64(p[0])), math.Abs(float64(p[1]))) }
 	for i := 1; i < len(idx); i++ {
 		a, b := ep(c.Pts[idx[i-1]]), ep(c.Pts[idx[i]])
 		for k := idx[i-1] + 1; k < idx[i]; k++ {
+			// allowed distance: thr plus the rounding of the library's own distance
+			// computation, which involves these three points only (not the largest ordinate
+			// anywhere on the line)
+			scale := math.Max(mag(c.Pts[k]), math.Max(mag(c.Pts[idx[i-1]]), mag(c.Pts[idx[i]])))
+			lim := exact.Add(exact.Mul(exact.R(thr), exact.Add(big.NewRat(1, 1), big.NewRat(1, 1<<30))), exact.Mul(exact.R(scale), big.NewRat(1, 1<<40)))
+			lim2 := exact.Mul(lim, lim)
 			d2 := exact.PointSegDist2(ep(c.Pts[k]), a, b)
 			if thr == 0 {
 				if d2.Sign() != 0 {
